@@ -38,6 +38,8 @@ def _intended(extra):
 def oracle(req, impl):
     head, extra = split_req(req)
     cmd = head[0]
+    if cmd in ("parse", "pe", "both") and not extra:
+        return None  # no intended meaning attached (corpus lines of rejected texts): K only
     if cmd == "parse":
         dense, absd, cnt = _intended(extra)
         t = impl.split()
